@@ -6,16 +6,18 @@ CONSTANTS MaxDepth, Stride      \* Stride: keep every Stride-th combination (1 =
 VARIABLES ct, depth, name, audio, place, akind, bkind, dots, call, ph
 
 vars == <<ct, depth, name, audio, place, akind, bkind, dots, call, ph>>
-DirParts == <<" 2023-05 ", "sub dir", "üni nfd", "x.y">>
+DirParts == <<" 2023-05 ", "sub dir\\notes", "üni nfd", "x.y">>
 \* the last two names and the first directory begin / end with a blank (legal; must be stored and relocated verbatim);
 \* the 7th and 8th names are NOT stable under unicode normalisation (decomposed accents e + U+0301, OHM SIGN U+2126)
-Names == <<"a.wav", "with space.wav", "üñí ©.wav", "dots.in.name.wav", "..hidden.wav", "日本.WAV", "été nfd.wav", "Ωhm.wav", " lead.wav", "take 7 ">>
+Names == <<"a.wav", "with space.wav", "üñí ©.wav", "dots.in.name.wav", "..hidden.wav", "日本.WAV", "été nfd.wav", "Ωhm.wav", " lead.wav", "take 7 ",
+          "rec\\01.wav">>       \* a POSIX file name containing a backslash (one component, stored and relocated verbatim)
 Sw0 == {"two_clips", "se_other_rec", "has_seq", "rec_owner"}
 Init == /\ ct \in Range(CTypes) /\ depth \in 0..MaxDepth /\ name \in DOMAIN Names
         \* fspath: the directory given as an os.PathLike object that is neither str nor pathlib.Path
         /\ audio \in {"none", "str", "path", "fspath"} /\ ph = "in"
         \* outside_prefix: a sibling directory whose NAME starts with the audio directory's name (string prefix, not path prefix)
-        /\ place \in {"inside", "outside", "outside_prefix"}
+        \* outside_case: a sibling directory whose name differs from the audio directory's only by letter case
+        /\ place \in {"inside", "outside", "outside_prefix", "outside_case"}
         \* the directories given as absolute or relative paths; rel_first: the load directory B is relative and equal to the
         \* first component of the stored relative path (so B.x starts with the same component twice)
         /\ akind \in {"abs", "rel"} /\ bkind \in {"abs", "rel", "rel_first"}
@@ -28,7 +30,7 @@ Init == /\ ct \in Range(CTypes) /\ depth \in 0..MaxDepth /\ name \in DOMAIN Name
         /\ call \in {"default", "format_aoef", "format_none", "typed"}
         /\ LET ix(S, x) == CHOOSE i \in 1..Len(S) : S[i] = x
                n == name + 3 * depth + 5 * ix(<<"none", "str", "path", "fspath">>, audio) + 7 * ix(<<"default", "format_aoef", "format_none", "typed">>, call)
-                    + 11 * ix(<<"inside", "outside", "outside_prefix">>, place) + 13 * ix(<<"abs", "rel", "rel_first">>, bkind) + ix(CTypes, ct)
+                    + 11 * ix(<<"inside", "outside", "outside_prefix", "outside_case">>, place) + 13 * ix(<<"abs", "rel", "rel_first">>, bkind) + ix(CTypes, ct)
            IN  n % Stride = 0
         /\ dots \in BOOLEAN /\ (dots => depth = 1 /\ place = "inside" /\ akind = "abs" /\ bkind = "abs")
 Go == ph = "in" /\ ph' = "out" /\ UNCHANGED <<ct, depth, name, audio, place, akind, bkind, dots, call>>
